@@ -371,7 +371,11 @@ mod gate {
 
     /// what the next dial / handshake / request does
     #[allow(dead_code)]
-    pub(super) enum Step { Now, Never, Gate(oneshot::Receiver<()>) }
+    pub(super) enum Step {
+        Now, Never, Gate(oneshot::Receiver<()>),
+        /// stalls until told how it ends: `true` = goes through, `false` = fails with an error (sender gone: stalls for ever)
+        Outcome(oneshot::Receiver<bool>),
+    }
     #[derive(Default)]
     pub(super) struct ScriptInner {
         pub dials: VecDeque<Step>, pub handshakes: VecDeque<Step>, pub sends: VecDeque<Step>,
@@ -379,11 +383,13 @@ mod gate {
     }
     #[derive(Clone, Default)]
     pub(super) struct Script(pub Arc<Mutex<ScriptInner>>);
-    async fn run(step: Option<Step>) {
+    /// `false`: the step fails
+    async fn run(step: Option<Step>) -> bool {
         match step {
-            None | Some(Step::Now) => {}
-            Some(Step::Never) => std::future::pending::<()>().await,
-            Some(Step::Gate(rx)) => { if rx.await.is_err() { std::future::pending::<()>().await } }
+            None | Some(Step::Now) => true,
+            Some(Step::Never) => std::future::pending::<bool>().await,
+            Some(Step::Gate(rx)) => { if rx.await.is_err() { std::future::pending::<()>().await } true }
+            Some(Step::Outcome(rx)) => match rx.await { Ok(ok) => ok, Err(_) => std::future::pending::<bool>().await },
         }
     }
 
@@ -397,7 +403,7 @@ mod gate {
         fn call(&mut self, req: http::request::Parts) -> Self::Future {
             let step = { let mut s = self.0 .0.lock().unwrap(); s.dialled += 1; s.dials.pop_front() };
             let share = req.version == http::Version::HTTP_2;
-            Box::pin(async move { run(step).await; Ok(MockStream::new(share)) })
+            Box::pin(async move { if run(step).await { Ok(MockStream::new(share)) } else { Err(MockConnectionError) } })
         }
     }
 
@@ -411,7 +417,10 @@ mod gate {
         fn call(&mut self, req: ProtocolRequest<MockStream, crate::Body>) -> Self::Future {
             let step = { let mut s = self.0 .0.lock().unwrap(); s.shaken += 1; s.handshakes.pop_front() };
             let script = self.0.clone();
-            Box::pin(async move { run(step).await; Ok(GateConn { share: req.transport.can_share(), stream: req.transport, script }) })
+            Box::pin(async move {
+                if !run(step).await { return Err(ConnectionError::Handshake("scripted handshake failure".into())); }
+                Ok(GateConn { share: req.transport.can_share(), stream: req.transport, script })
+            })
         }
     }
 
@@ -427,7 +436,7 @@ mod gate {
             let step = { let mut s = self.script.0.lock().unwrap(); s.sent += 1; s.sends.pop_front() };
             let script = self.script.clone();
             Box::pin(async move {
-                run(step).await;
+                if !run(step).await { return Err(std::io::Error::new(std::io::ErrorKind::Other, "scripted exchange failure")); }
                 script.0.lock().unwrap().answered += 1;
                 Ok(http::Response::new(request.into_body()))
             })
@@ -462,21 +471,39 @@ mod gate {
 #[derive(Clone, Copy, Debug, PartialEq)]
 enum Stage { Dial, OthersDial, Handshake, Response }
 
-/// One scenario: a request whose deadline fires in `stage`; afterwards a follow-up request to the same origin, whose
-/// own dial / handshake / exchange would go through at once, must succeed.  Returns a description of what went wrong.
-async fn cleanup_scenario(stage: Stage, version: http::Version, continue_after_preemption: bool) -> Result<(), String> {
+/// what becomes of the stalled dial / handshake of the timed-out request AFTER the deadline has fired and the request
+/// has been dropped (stages Dial and Handshake only)
+#[derive(Clone, Copy, Debug, PartialEq)]
+enum Late { Never, Succeeds, Fails }
+
+/// One scenario: a request whose deadline fires in `stage`; afterwards (and after the stalled dial / handshake has
+/// ended as `late` says) a follow-up request to the same origin, whose own dial / handshake / exchange would go through
+/// at once, must succeed.  Returns a description of what went wrong.
+async fn cleanup_scenario(stage: Stage, version: http::Version, continue_after_preemption: bool, late: Late) -> Result<(), String> {
     use gate::*;
     let d = Duration::from_millis(60);
     let script = Script::default();
-    let what = format!("[{stage:?}, {version:?}, continue_after_preemption={continue_after_preemption}]");
+    let what = if late == Late::Never { format!("[{stage:?}, {version:?}, continue_after_preemption={continue_after_preemption}]") }
+        else { format!("[{stage:?}, {version:?}, continue_after_preemption={continue_after_preemption}, stalled {} {late:?} after the deadline]", if stage == Stage::Dial { "dial" } else { "handshake" }) };
     let mut cl = client(&script, continue_after_preemption, d);
     let mut other_gate = None;
     let mut other = None;
+    let mut late_gate = None;
     {
         let mut s = script.0.lock().unwrap();
+        match (stage, late) {
+            (Stage::Dial, Late::Never) => s.dials.push_back(Step::Never),
+            (Stage::Handshake, Late::Never) => s.handshakes.push_back(Step::Never),
+            (Stage::Dial, _) | (Stage::Handshake, _) => {
+                let (tx, rx) = tokio::sync::oneshot::channel();
+                if stage == Stage::Dial { s.dials.push_back(Step::Outcome(rx)) } else { s.handshakes.push_back(Step::Outcome(rx)) }
+                late_gate = Some(tx);
+            }
+            (_, Late::Succeeds | Late::Fails) => return Err(format!("{what} setup: `late` applies to the stages Dial and Handshake only")),
+            (_, Late::Never) => {}
+        }
         match stage {
-            Stage::Dial => s.dials.push_back(Step::Never),
-            Stage::Handshake => s.handshakes.push_back(Step::Never),
+            Stage::Dial | Stage::Handshake => {}
             Stage::Response => s.sends.push_back(Step::Never),
             Stage::OthersDial => {
                 let (tx, rx) = tokio::sync::oneshot::channel();
@@ -509,6 +536,16 @@ async fn cleanup_scenario(stage: Stage, version: http::Version, continue_after_p
     }
     if t0.elapsed() < d { return Err(format!("{what} timed out after {:?}, before {d:?}", t0.elapsed())); }
     let answered_before = script.0.lock().unwrap().answered;
+    // the stalled dial / handshake of the request that has just been dropped ends now, one way or the other.  If a
+    // spawned task carries it on, that task is runnable from here on and the runtime (one thread) runs it before it
+    // parks for our sleep: the follow-ups start when the late outcome has been dealt with, however slow the machine is.
+    // (Whoever dropped the dial together with the request has dropped the receiver too: `send` fails, nothing happens.)
+    if let Some(tx) = late_gate.take() {
+        let (dl, hs) = { let s = script.0.lock().unwrap(); (s.dialled, s.shaken) };
+        if (dl, hs) != (1, if stage == Stage::Dial { 0 } else { 1 }) { return Err(format!("{what} setup: {dl} dials, {hs} handshakes started when the deadline fired")); }
+        let _ = tx.send(late == Late::Succeeds);
+        tokio::time::sleep(Duration::from_millis(30)).await;
+    }
     // the other request's dial completes now (if there is one): that request must still be served
     if let Some(tx) = other_gate.take() { let _ = tx.send(()); }
     if let Some(f) = other.take() {
@@ -566,7 +603,7 @@ async fn standin_cleanup() {
             for cap in [false, true] {
                 if is_background_dial(stage, version, cap) { continue; }
                 n += 1;
-                if let Err(e) = cleanup_scenario(stage, version, cap).await { wrong.push(e); }
+                if let Err(e) = cleanup_scenario(stage, version, cap, Late::Never).await { wrong.push(e); }
             }
         }
     }
@@ -583,9 +620,32 @@ async fn standin_cleanup_background_dial() {
     let mut wrong = Vec::new();
     for stage in [Stage::Dial, Stage::Handshake] {
         assert!(is_background_dial(stage, http::Version::HTTP_2, true));
-        if let Err(e) = cleanup_scenario(stage, http::Version::HTTP_2, true).await { wrong.push(e); }
+        if let Err(e) = cleanup_scenario(stage, http::Version::HTTP_2, true, Late::Never).await { wrong.push(e); }
     }
     assert!(wrong.is_empty(), "{} of 2 scenarios:\n{}", wrong.len(), wrong.join("\n"));
+}
+
+/// A.timeout.cleanup.late_dial [C19]: the dimension the two sweeps above do not have - the dial / handshake that was
+/// still running when the deadline fired ENDS afterwards: it goes through, or it fails.  Deadline during the request's own
+/// dial / handshake x {HTTP/1.1, HTTP/2} x continue_after_preemption {off, on} x {late success, late failure} = 16
+/// combinations of the same scenario function, the same expectation: the two follow-up requests to the origin are served
+/// (a dial that has ended - in a spawned task or not at all - must not leave anything behind that later requests wait for).
+#[tokio::test]
+async fn standin_cleanup_late_dial() {
+    let mut wrong = Vec::new();
+    let mut n = 0;
+    for stage in [Stage::Dial, Stage::Handshake] {
+        for version in [http::Version::HTTP_11, http::Version::HTTP_2] {
+            for cap in [false, true] {
+                for late in [Late::Succeeds, Late::Fails] {
+                    n += 1;
+                    if let Err(e) = cleanup_scenario(stage, version, cap, late).await { wrong.push(e); }
+                }
+            }
+        }
+    }
+    assert_eq!(n, 16);
+    assert!(wrong.is_empty(), "{} of {n} scenarios:\n{}", wrong.len(), wrong.join("\n"));
 }
 
 // ---------------------------------------------------------------------------------------------------------------
@@ -690,5 +750,84 @@ async fn standin_builder_timeout() {
         let refer = tokio::time::sleep(ms(600));
         let r = tokio::select! { biased; r = fut => Some(r), _ = refer => None };
         assert!(r.is_none(), "[{name}] silent server: the request resolved with {:?} within 600 ms although no (or a 30 s) timeout is configured", r.map(|x| x.map(|y| y.status())));
+    }
+}
+
+/// hyper's HTTP/1 server on every connection of `incoming`: answers `/` with a 302 to `/second-hop` after `hop_ms`
+/// milliseconds and every other path with a 200 after `hop_ms` milliseconds; records the paths in the order they arrive
+fn redirecting_server(incoming: crate::stream::duplex::DuplexIncoming, hop_ms: Arc<AtomicUsize>, seen: Arc<Mutex<Vec<String>>>) -> tokio::task::JoinHandle<()> {
+    use futures_util::stream::StreamExt as _;
+    tokio::spawn(async move {
+        let mut incoming = incoming;
+        while let Some(Ok(stream)) = incoming.next().await {
+            let (hop_ms, seen) = (hop_ms.clone(), seen.clone());
+            tokio::spawn(async move {
+                let service = hyper::service::service_fn(move |req: http::Request<hyper::body::Incoming>| {
+                    let (hop_ms, seen) = (hop_ms.clone(), seen.clone());
+                    async move {
+                        let path = req.uri().path().to_string();
+                        seen.lock().unwrap().push(path.clone());
+                        tokio::time::sleep(Duration::from_millis(hop_ms.load(Ordering::SeqCst) as u64)).await;
+                        let b = http::Response::builder();
+                        let b = if path == "/" { b.status(302).header(http::header::LOCATION, "http://origin.test/second-hop") } else { b.status(200) };
+                        Ok::<_, std::convert::Infallible>(b.body(crate::Body::empty()).unwrap())
+                    }
+                });
+                let _ = hyper::server::conn::http1::Builder::new().serve_connection(crate::bridge::io::TokioIo::new(stream), service).await;
+            });
+        }
+    })
+}
+
+/// A.timeout.redirects [C19] (bounded stand-in for the POSITION of the timeout layer inside `Builder::build_service`): the
+/// deadline belongs to the request as the caller issued it, not to each hop of a redirect chain that the client follows
+/// on the caller's behalf.  A client built `with_timeout(d)` and a redirect policy that follows; the server answers the
+/// first hop with a 302 after 2/3 d and the hop it redirects to with a 200 after another 2/3 d - each hop shorter than d,
+/// the request longer.  The caller gets `Error::RequestTimeout`, not before d and before a reference timer of 1.75 d.
+/// Control: the same client, both hops answered at once: the 200 of the second hop.
+#[tokio::test]
+async fn standin_builder_timeout_redirects() {
+    use crate::client::conn::transport::duplex::DuplexTransport;
+    use crate::client::Client;
+    use tower_http::follow_redirect::policy;
+    let ms = Duration::from_millis;
+    let get = || http::Request::builder().uri("http://origin.test/").body(crate::Body::empty()).unwrap();
+    let d = ms(600);
+    let hop = ms(400);
+    let builds: Vec<(&str, Box<dyn Fn(DuplexTransport) -> Client>)> = vec![
+        ("standard redirect policy, pool", Box::new(move |t| Client::builder().with_auto_http().with_transport(t).with_default_pool().with_standard_redirect_policy().with_timeout(d).build())),
+        ("standard redirect policy, no pool", Box::new(move |t| Client::builder().with_auto_http().with_transport(t).without_pool().with_timeout(d).with_standard_redirect_policy().build())),
+        ("with_redirect_policy(Limited(3)), pool", Box::new(move |t| Client::builder().with_auto_http().with_transport(t).with_timeout(d).with_redirect_policy(policy::Limited::new(3)).with_default_pool().build())),
+    ];
+    for (name, build) in &builds {
+        let (tx, incoming) = crate::stream::duplex::pair();
+        let (hop_ms, seen) = (Arc::new(AtomicUsize::new(0)), Arc::new(Mutex::new(Vec::new())));
+        let _server = redirecting_server(incoming, hop_ms.clone(), seen.clone());
+        let mut client = build(DuplexTransport::new(16 * 1024, tx));
+
+        // ---- control: both hops answered at once -> the redirect is followed, the caller gets the second hop's 200
+        let r = tokio::time::timeout(Duration::from_secs(10), client.request(get())).await
+            .unwrap_or_else(|_| panic!("[{name}] control (both hops answered at once): the request never resolved"));
+        let r = r.unwrap_or_else(|e| panic!("[{name}] control (both hops answered at once, timeout {d:?}): the request failed: {e}"));
+        assert_eq!(r.status(), http::StatusCode::OK, "[{name}] control: the redirect was not followed (the scenario below would not exercise a second hop)");
+        assert_eq!(*seen.lock().unwrap(), ["/", "/second-hop"], "[{name}] control: requests seen by the server");
+        drop(r);
+
+        // ---- each hop 2/3 d: shorter than the deadline, the request as issued is not
+        seen.lock().unwrap().clear();
+        hop_ms.store(hop.as_millis() as usize, Ordering::SeqCst);
+        let t0 = Instant::now();
+        let fut = client.request(get());
+        let refer = tokio::time::sleep(d * 7 / 4 + ms(10));
+        let r = tokio::select! { biased; r = fut => Some(r), _ = refer => None };
+        let took = t0.elapsed();
+        let r = r.unwrap_or_else(|| panic!("[{name}] with_timeout({d:?}), redirect followed, each hop answered after {hop:?}: the request was not resolved when a reference timer of 1.75 x the duration fired ({took:?})"));
+        match r {
+            Err(crate::client::Error::RequestTimeout) => {}
+            Err(e) => panic!("[{name}] with_timeout({d:?}), redirect followed, each hop answered after {hop:?}: resolved with error `{e}` instead of RequestTimeout"),
+            Ok(resp) => panic!("[{name}] with_timeout({d:?}), redirect followed, each hop answered after {hop:?}: the request issued by the caller resolved with {} after {took:?} - the deadline was restarted for the redirected hop (per hop instead of per request)", resp.status()),
+        }
+        assert!(took >= d, "[{name}] timed out after {took:?}, before the configured {d:?}");
+        assert_eq!(*seen.lock().unwrap(), ["/", "/second-hop"], "[{name}] the deadline did not fire during the SECOND hop: the scenario did not exercise a followed redirect");
     }
 }
